@@ -7,7 +7,8 @@
 (*   ct[n] == [kind : "object" | "interface" | "hidden" (a concrete class   *)
 (*             not given to graphql_schema), bases : Seq(name),            *)
 (*             fields : Seq([name, alias, t, def, flat]),                  *)
-(*             resolvers : Seq([name, params : Seq([name, t, def]), ret])] *)
+(*             resolvers : Seq([name, params : Seq([name, t, def]), ret,   *)
+(*                              src (Python body), v (its result), sel])]  *)
 (*   def   == [k|->"req"] | [k|->"null"] | [k|->"undef"] | [k|->"unser"]   *)
 (*            | [k|->"val", v]                                             *)
 (* and types  int str bool id score(NewType over int) cint(int >= 0)       *)
@@ -159,7 +160,11 @@ GSerObj(M, n, v) ==
   LET fs == AllFields(M, n)
       one(f) == IF f.flat THEN GSerObj(M, f.t.n, Get(v.f, f.name)).o
                 ELSE << <<FName(f), GSer(M, f.t, Get(v.f, f.name))>> >>
-  IN DObj(FlattenSeq([i \in DOMAIN fs |-> one(fs[i])]))
+      \* resolvers are fields too: every resolver that can be selected without argument (r.sel) contributes
+      \* the serialization of its result -- r.v, or the attribute it returns ([k |-> "attr", n])
+      rs == SelectSeq(AllResolvers(M, n), LAMBDA r : r.sel)
+      rv(r) == IF r.v.k = "attr" THEN Get(v.f, r.v.n) ELSE r.v
+  IN DObj(FlattenSeq([i \in DOMAIN fs |-> one(fs[i])]) \o [i \in DOMAIN rs |-> <<rs[i].name, GSer(M, rs[i].ret, rv(rs[i]))>>])
 GSer(M, T, v) ==
   CASE T.k \in {"opt", "und"} -> IF v.k \in {"null", "undef"} THEN DNull ELSE GSer(M, T.e, v)
     [] T.k = "list" -> DArr([i \in DOMAIN v.a |-> GSer(M, T.e, v.a[i])])
